@@ -403,8 +403,15 @@ func BufferWhen[T, B any](boundary Observable[B]) func(Observable[T]) Observable
 		return NewObservableWithContext(func(subscriberCtx context.Context, destination Observer[[]T]) Teardown {
 			buffer := []T{}
 			mu := xsync.NewMutexWithSpinlock()
+			// muNext orders the deliveries: flush runs on two goroutines, and a buffer that is
+			// taken later must not be delivered first. It is taken before `mu` and `mu` is never
+			// held while waiting for it (the teardown takes `mu`).
+			muNext := sync.Mutex{}
 
 			flush := func(ctx context.Context) {
+				muNext.Lock()
+				defer muNext.Unlock()
+
 				// send even if buffer is empty
 				mu.Lock()
 
@@ -485,8 +492,15 @@ func BufferWithTimeOrCount[T any](size int, duration time.Duration) func(Observa
 		return NewObservableWithContext(func(subscriberCtx context.Context, destination Observer[[]T]) Teardown {
 			buffer := []T{}
 			mu := xsync.NewMutexWithSpinlock()
+			// muNext orders the deliveries: flush runs on two goroutines, and a buffer that is
+			// taken later must not be delivered first. It is taken before `mu` and `mu` is never
+			// held while waiting for it (the teardown takes `mu`).
+			muNext := sync.Mutex{}
 
 			flush := func(ctx context.Context) {
+				muNext.Lock()
+				defer muNext.Unlock()
+
 				// send even if buffer is empty
 				mu.Lock()
 
